@@ -276,7 +276,8 @@ class BaseArray(BaseType):
         if cls.null_terminated:
             return cls.type._write_0(stream, data)
 
-        if not cls.dynamic and cls.num_entries != (actual_size := len(data)):
+        # A fixed number of entries is fixed also if the entries themselves are of variable size
+        if isinstance(cls.num_entries, int) and cls.num_entries != (actual_size := len(data)):
             raise ArraySizeError(f"Expected static array size {cls.num_entries}, got {actual_size} instead.")
 
         return cls.type._write_array(stream, data)
